@@ -5,6 +5,7 @@ import (
 	"fmt"
 	"sort"
 	"strings"
+	"sync"
 	"testing"
 	"time"
 
@@ -338,6 +339,79 @@ func TestVerifP2cForcedPick(t *testing.T) {
 			}
 			return vrt.Step{Canon: s.canon()}
 		})
+	}
+}
+
+// Concurrent callers: picks racing with completions (and with each other) on every schedule
+// within the bound: the in-flight count of every connection equals picks minus completions,
+// scores stay in range, nobody crashes.
+func TestVerifP2cConcurrent(t *testing.T) {
+	defer vrt.WriteReport()
+	logx.Disable()
+	bound := 2
+	if vrt.Thorough() {
+		bound = 3
+	}
+	for _, n := range []int{1, 2} {
+		for _, kind := range []string{"pick|done", "pick|pick", "done|done", "pick|done|pick"} {
+			if !vrt.Shard(50 + n) {
+				continue
+			}
+			n, kind := n, kind
+			vrt.Explore(vrt.Options{Name: fmt.Sprintf("p2c/concurrent/conns=%d/%s", n, kind), Bound: bound, Prune: true, Budget: vrt.FairBudget(4)}, func(r *vrt.Run) {
+				s := newPcSys(r, n)
+				// two calls already in flight
+				var dones []func(balancer.DoneInfo)
+				var ids []string
+				for i := 0; i < 2; i++ {
+					res, err := s.p.Pick(balancer.PickInfo{FullMethodName: "/m", Ctx: context.Background()})
+					if err != nil {
+						r.Failf("Pick: %v", err)
+						return
+					}
+					dones = append(dones, res.Done)
+					ids = append(ids, res.SubConn.(pcConn).id)
+					s.picks[ids[i]]++
+				}
+				vrt.Advance(3 * time.Millisecond)
+				var wg sync.WaitGroup
+				var mu sync.Mutex
+				di := 0
+				for _, role := range strings.Split(kind, "|") {
+					role := role
+					wg.Add(1)
+					go func() {
+						defer wg.Done()
+						if role == "pick" {
+							res, err := s.p.Pick(balancer.PickInfo{FullMethodName: "/m", Ctx: context.Background()})
+							if err != nil {
+								r.Failf("Pick: %v", err)
+								return
+							}
+							mu.Lock()
+							s.picks[res.SubConn.(pcConn).id]++
+							mu.Unlock()
+							return
+						}
+						mu.Lock()
+						i := di
+						di++
+						mu.Unlock()
+						dones[i](balancer.DoneInfo{})
+						mu.Lock()
+						s.dones[ids[i]]++
+						mu.Unlock()
+					}()
+				}
+				wg.Wait()
+				var out []string
+				for _, id := range s.ids() {
+					out = append(out, fmt.Sprintf("%s:%d", id, s.byID[id].inflight))
+				}
+				r.Outcome("%v", out)
+				s.invariants("the concurrent calls")
+			})
+		}
 	}
 }
 
